@@ -34,6 +34,13 @@ Generic == {<<>>, <<120>>, <<32, 120, 32>>, <<97, 32, 32, 98>>, <<49>>, <<10, 12
 \* literals of *other* types (every enumeration literal of every type is offered to every type in the thorough tier)
 ForeignLiterals == {<<121, 101, 115>>, <<117, 112>>, <<115, 116, 97, 114, 116>>, <<110, 111, 114, 109, 97, 108>>}
 
+\* C16: strings over representative code points of the XML Char production (markup characters, quotes, blanks,
+\* TAB, LF, Latin-1, the BMP boundaries, non-BMP); CR excluded as the property says
+EscAlphabet == {60, 62, 38, 34, 39, 32, 9, 10, 233, 55295, 57344, 65533, 65536, 1114111, 97}
+EscLen == 2
+EscStrings == UNION {[1..n -> EscAlphabet] : n \in 1..EscLen}
+FreeString(d) == d.prim = "string" /\ ~d.hasEnum /\ d.pats = <<>> /\ d.union = <<>>
+
 RECURSIVE LeafTypes(_)
 LeafTypes(tn) == IF ST[tn].union # <<>> THEN UNION {LeafTypes(ST[tn].union[i]) : i \in DOMAIN ST[tn].union} ELSE {tn}
 
@@ -51,6 +58,7 @@ LeafTokens(tn) ==
              \cup {FloatTok(1, e) : e \in {0 - 7, 0 - 5, 0 - 4, 15, 16, 22}}             \* magnitudes (repr switches to exponent form)
              \cup {Tok("str", IntCps(n)) : n \in {1}}                                   \* numeric text offered as str
         ELSE {Tok("int", IntCps(1)), FloatTok(15, 0 - 1)})
+  \cup (IF FreeString(d) THEN {Tok("str", x) : x \in EscStrings} ELSE {})
 
 Tokens(tn) ==
      UNION {LeafTokens(l) : l \in LeafTypes(tn)}
